@@ -1,19 +1,27 @@
-(* C02 domain: the best agent is the minimum of everything evaluated so far.
+(* C02 domain: the best agent is the minimum of everything evaluated so far (executable part: abstract
+   domain, transfer functions, the decidable check [c02_check]; soundness is Analysis/BestMinSound.v).
 
-   Per reference class (other slots / loop slot / trial / other shadows / loop slot's shadow) a cell
-   (quality, role):
+   Per reference class -- slots already visited by the enclosing ForSlots (all slots outside a loop) / the loop
+   slot / slots not yet visited / the trial / the other shadows / the loop slot's shadow -- a cell (quality, role):
      quality  QGood : position feasible and (position, fitness) is an earlier evaluation event
-              QFeas : position feasible          QNone : nothing
+              QFeas : position feasible          QNone : only well formed
      role     Clean   : best.fit <= fit  (whatever this agent stands for is already covered by best)
               Idle    : nothing known, and the agent is NOT relied upon to remember an evaluation
               Carrier : the agent may be the only memory of an evaluation below best.fit
    plus relational facts from [assume (FitLt a b)] that live until either fitness is written, and the flag
    [b_locw] (PSO family: local_position[i] is an argument at which the objective returned agents[i].fit).
 
-   Semantic invariant (BG): every evaluation value v so far satisfies  best.fit <= v  or there is a
-   *good* agent (feasible position, (pos,fit) an earlier evaluation) in a class of role Carrier whose
-   fit <= v.  Good agents are fixed points of ClipAll and are re-evaluated to the same value by the closing
-   sweep, after which every slot is Clean.  A statement that would destroy a Carrier raises the C02 alarm. *)
+   Semantic invariant (BG in BestMinSound.v): every evaluation value v so far satisfies  best.fit <= v  or
+   there is a *good* agent (feasible position, (pos,fit) an earlier evaluation) in a class of role Carrier
+   whose fit <= v.  Good agents are fixed points of ClipAll and are re-evaluated to the same value by the
+   closing sweep, after which every slot is Clean.  A statement that would destroy a Carrier, evaluate at an
+   unclipped position, or record (Dump) while some class is still a Carrier raises the C02 alarm.
+
+   Sub-programs whose intermediate states break the invariant are handled by [special] rules on [strip s]:
+   the copy pair  CopyPos d s; CopyFit d s  (either order; d = Best: best := copy of s after s.fit < best.fit),
+   the swap pair  SwapPos Cur Best; SwapFit Cur Best, the body of PSO._evaluate, and ForSlots itself: a strong
+   rule (every slot is visited exactly once, so the slots not yet reached are still described by the state
+   before the loop) whose body is analysed by the first-level interpreter [ba_absint0]. *)
 From Coq Require Import String ZArith List Bool Arith Lia.
 From OV Require Import Base.FloatKey Model.Clip Model.IR Model.IRSem Analysis.AbsInt Analysis.SemLemmas Analysis.Sweep.
 Import ListNotations.
@@ -218,6 +226,7 @@ Definition swap_best : stmt := Seq (SwapPos Cur Best) (SwapFit Cur Best).
 Definition is_copy_pair (t : stmt) : option (ref * ref) :=
   match t with
   | Seq (CopyPos d s1) (CopyFit d' s2) => if ref_eqb d d' && ref_eqb s1 s2 then Some (d, s1) else None
+  | Seq (CopyFit d s1) (CopyPos d' s2) => if ref_eqb d d' && ref_eqb s1 s2 then Some (d, s1) else None
   | _ => None
   end.
 
